@@ -26,6 +26,53 @@ def build(tier, seed):
             'note': 'frames are decided structurally by the executor (which storage an in-place op targets is not symbolic), on every path.'}
 
 
+FUNC_FRAME_REPLAY = '''
+import pfhedge.nn as pnn
+import pfhedge.nn.functional as F
+torch.manual_seed(4)
+bad = []
+def chk(name, fn, *tensors):
+    saved = [t.clone() for t in tensors]
+    try:
+        fn(*tensors)
+    except Exception as e:
+        bad.append((name, "raised " + type(e).__name__)); return
+    for k, (t, s_) in enumerate(zip(tensors, saved)):
+        if not torch.equal(t, s_): bad.append((name, "argument %d was modified in place" % k))
+X = lambda *shape: torch.randn(*shape, dtype=torch.float64) * 3.0
+P = lambda *shape: torch.rand(*shape, dtype=torch.float64) + 0.5
+chk("quadratic_cvar[dim=0]", lambda x: F.quadratic_cvar(x, 2.0, dim=0), X(30, 2))
+chk("quadratic_cvar[dim=None]", lambda x: F.quadratic_cvar(x, 2.0), X(30))
+chk("QuadraticCVaR.forward", lambda x, z: pnn.QuadraticCVaR(2.0)(x, z), X(30, 2), X(30, 2))
+chk("entropic_risk_measure", lambda x: F.entropic_risk_measure(x, a=1.5), X(30, 2))
+chk("expected_shortfall", lambda x: F.expected_shortfall(x, 0.3, dim=0), X(30, 2))
+chk("value_at_risk", lambda x: F.value_at_risk(x, 0.3, dim=0), X(30, 2))
+chk("exp_utility", lambda x: F.exp_utility(x, a=0.5), X(30, 2))
+chk("isoelastic_utility", lambda x: F.isoelastic_utility(x, 0.5), P(30, 2))
+chk("pl", lambda s, u, p: F.pl(s, u, cost=[0.01, 0.02], payoff=p), P(5, 2, 7), X(5, 2, 7), X(5))
+chk("realized_volatility", lambda x: F.realized_volatility(x, dt=0.01), P(5, 7))
+chk("ww_width", lambda g, x: F.ww_width(g, x, 0.01, a=1.0), X(5, 7), P(5, 7))
+for nm in ("bs_european_price", "bs_european_gamma", "bs_european_vega", "bs_european_theta", "bs_european_binary_price", "bs_european_binary_delta"):
+    kw = {"strike": 1.2} if nm.split("_")[-1] in ("gamma", "vega", "theta") else {}
+    chk(nm, lambda x, t, v, nm=nm, kw=kw: getattr(F, nm)(x, t, v, **kw), X(5, 7) * 0.1, P(5, 7), P(5, 7) * 0.3)
+for nm in ("bs_american_binary_price", "bs_american_binary_delta", "bs_lookback_price"):
+    kw = {} if nm == "bs_american_binary_price" else {"strike": 1.2}
+    x = X(5, 7) * 0.1
+    chk(nm, lambda x, m, t, v, nm=nm, kw=kw: getattr(F, nm)(x, m, t, v, **kw), x, x.clamp(min=0) + 0.05, P(5, 7), P(5, 7) * 0.3)
+for (nm, crit) in (("EntropicRiskMeasure", pnn.EntropicRiskMeasure(1.5)), ("ExpectedShortfall", pnn.ExpectedShortfall(0.3)), ("EntropicLoss", pnn.EntropicLoss(0.5))):
+    chk(nm + ".forward", lambda x, z, crit=crit: crit(x, z), X(30, 2), X(30, 2))
+    chk(nm + ".cash", lambda x, crit=crit: crit.cash(x), X(30, 2))
+result = {"got": [str(b) for b in bad], "ref": []}
+'''
+
+
+def _replay_functional():
+    from pfv.framework import real_exec
+    r = real_exec(FUNC_FRAME_REPLAY, {}, timeout=600)
+    ok = r.get('ok') and r['result']['got'] == []
+    return {'real': r, 'confirmed': not ok, 'note': 'replay: every functional form / criterion called on random tensors under real torch; arguments compared bit-wise before and after'}
+
+
 def functional_frames(seed):
     import torch
     from pfv import terms as tm
@@ -37,7 +84,7 @@ def functional_frames(seed):
         def run(c):
             import pfhedge.nn.functional as F
             return builder(F)
-        return H.frame_ob('C16/%s/frame' % fname, 'pfhedge.nn.functional.' + fname, run, H.DIMS, clause)
+        return H.frame_ob('C16/%s/frame' % fname, 'pfhedge.nn.functional.' + fname, run, H.DIMS, clause, replay=_replay_functional)
 
     def T2(name):
         from pfv.torchlib.tensor import Tensor
@@ -56,6 +103,36 @@ def functional_frames(seed):
     obs.append(mk('bs_european_delta', lambda F: F.bs_european_delta(T2('X'), T2('TT'), T2('VV')), 'modifies nothing (raising paths included)'))
     obs.append(mk('entropic_risk_measure', lambda F: F.entropic_risk_measure(T2('X'), a=SReal(tm.var('a'))), 'modifies nothing'))
     obs.append(mk('expected_shortfall', lambda F: F.expected_shortfall(T2('X'), 0.5, dim=0), 'modifies nothing'))
+    # the remaining risk measures / utilities / criteria: the caller's P&L tensor is never written
+    from contracts.training import _with_bisect_stub
+
+    def T1(name):
+        from pfv.torchlib.tensor import Tensor
+        return Tensor.input(name, (H.N,), torch.float64)
+    obs.append(mk('quadratic_cvar[dim=0]', lambda F: _with_bisect_stub(lambda: F.quadratic_cvar(T2('X'), SReal(tm.var('lam')), dim=0)), 'modifies nothing (bisect under its contract stub)'))
+    obs.append(mk('quadratic_cvar[dim=None]', lambda F: _with_bisect_stub(lambda: F.quadratic_cvar(T1('X'), SReal(tm.var('lam')))), 'modifies nothing, also through the flatten() view taken for dim=None'))
+    obs.append(mk('value_at_risk', lambda F: F.value_at_risk(T2('X'), 0.5, dim=0), 'modifies nothing'))
+    obs.append(mk('exp_utility', lambda F: F.exp_utility(T2('X'), a=SReal(tm.var('a'))), 'modifies nothing'))
+    obs.append(mk('isoelastic_utility', lambda F: F.isoelastic_utility(T2('X'), 0.5), 'modifies nothing'))
+    obs.append(mk('pl', lambda F: F.pl(T3('S3'), T3('U3'), cost=[0.01], payoff=T1('P')), 'pl modifies neither prices, positions nor the payoff'))
+    obs.append(mk('realized_volatility', lambda F: F.realized_volatility(T2('X'), dt=SReal(H.DT)), 'modifies nothing'))
+    obs.append(mk('ww_width', lambda F: F.ww_width(T2('G'), T2('X'), SReal(tm.var('c1')), a=SReal(tm.var('a'))), 'modifies nothing'))
+    for bsf in ('bs_european_price', 'bs_european_gamma', 'bs_european_vega', 'bs_european_theta', 'bs_european_binary_price', 'bs_european_binary_delta'):
+        obs.append(mk(bsf, lambda F, bsf=bsf: getattr(F, bsf)(T2('X'), T2('TT'), T2('VV'), **({'strike': SReal(H.K)} if bsf in ('bs_european_vega', 'bs_european_theta', 'bs_european_gamma') else {})), 'modifies nothing (raising paths included)'))
+    for bsf in ('bs_american_binary_price', 'bs_american_binary_delta', 'bs_lookback_price'):
+        obs.append(mk(bsf, lambda F, bsf=bsf: getattr(F, bsf)(T2('X'), T2('MM'), T2('TT'), T2('VV'), **({'strike': SReal(H.K)} if bsf != 'bs_american_binary_price' else {})), 'modifies nothing (raising paths included)'))
+
+    def mkmod(name, builder, clause):
+        def run(c):
+            import pfhedge.nn as pnn
+            return builder(pnn)
+        return H.frame_ob('C16/%s/frame' % name, 'pfhedge.nn.modules.loss.' + name.split('.')[0], run, H.DIMS, clause, replay=_replay_functional)
+    obs.append(mkmod('EntropicRiskMeasure.forward', lambda pnn: pnn.EntropicRiskMeasure(SReal(tm.var('a')))(T2('X'), T1('Z0').sum()), 'input and target are not written'))
+    obs.append(mkmod('ExpectedShortfall.forward', lambda pnn: pnn.ExpectedShortfall(0.5)(T2('X'), T1('Z0').sum()), 'input and target are not written'))
+    obs.append(mkmod('QuadraticCVaR.forward', lambda pnn: _with_bisect_stub(lambda: pnn.QuadraticCVaR(SReal(tm.var('lam')))(T2('X'), T1('Z0').sum())), 'input and target are not written'))
+    obs.append(mkmod('EntropicLoss.forward', lambda pnn: pnn.EntropicLoss(SReal(tm.var('a')))(T2('X'), T1('Z0').sum()), 'input and target are not written'))
+    obs.append(mkmod('EntropicRiskMeasure.cash', lambda pnn: pnn.EntropicRiskMeasure(SReal(tm.var('a'))).cash(T2('X')), 'input is not written'))
+    obs.append(mkmod('ExpectedShortfall.cash', lambda pnn: pnn.ExpectedShortfall(0.5).cash(T2('X')), 'input is not written'))
     return obs
 
 
